@@ -21,5 +21,5 @@ var table = map[string]propSpec{
 	"C14": {Level: "fault_enumeration", Parts: []partSpec{{Name: "sqlite-fault", Bin: "p:sqlite"}, {Name: "sqlite-reopen", Bin: "p:sqlite"}}},
 	"C07": {Level: "model_checking", Parts: []partSpec{{Name: "c07-router", Bin: "inst"}}},
 	"C08": {Level: "model_checking", Parts: []partSpec{{Name: "c08-merge", Bin: "inst"}}},
-	"C09": {Level: "model_checking", Parts: []partSpec{{Name: "c09-merge", Bin: "inst"}}},
+	"C09": {Level: "model_checking", Parts: []partSpec{{Name: "c09-merge", Bin: "inst"}, {Name: "engine-selfcheck", Bin: "inst"}}},
 }
